@@ -182,20 +182,37 @@ def gen_pool(rng, rate, vmax, size, malformed=False):
     return pool
 
 
-def gen_tree(rng, depth, npool, budget, vol_p=0.0):
-    """['w', rep, wf, vol] | ['l', rep, vol, children]"""
-    def count():
-        return rng.choice([1, 1, 1, 2, 2, 3, 4, 5, 7])
+def gen_vars(rng):
+    """volatile variables of a case: [name, scope index, value]; the same name may live in two scopes (equal
+    volatile property, different scope) and one scope holds several names"""
+    out = []
+    for scope in (0, 1):
+        for name in ('n', 'm'):
+            if rng.random() < 0.75:
+                out.append([name, scope, rng.choice([1, 1, 2, 2, 3, 4])])
+    return out or [['n', 0, 2]]
 
-    def vol():
-        return bool(vol_p) and rng.random() < vol_p
+
+def gen_tree(rng, depth, npool, budget, vol_p=0.0, vars_=None, root=False):
+    """['w', rep, wf, vol] | ['l', rep, vol, children]; vol: False | True (a private scope) | index into the
+    case's volatile variables (the count is then that variable's value)"""
+    def count_vol():
+        c = rng.choice([1, 1, 1, 2, 2, 3, 4, 5, 7])
+        if vol_p and rng.random() < (0.4 if root else vol_p):
+            if vars_ and rng.random() < 0.8:
+                j = rng.randrange(len(vars_))
+                return vars_[j][2], j
+            return c, True
+        return c, False
 
     if depth == 0 or (depth < 3 and rng.random() < 0.25):
-        return ['w', count(), rng.randrange(npool), vol()]
+        c, v = count_vol()
+        return ['w', c, rng.randrange(npool), v]
     k = rng.choice([1, 1, 2, 2, 3, 3, 4, 5, 6])
-    children = [gen_tree(rng, depth - 1 if rng.random() < 0.8 else max(0, depth - 2), npool, budget, vol_p)
+    children = [gen_tree(rng, depth - 1 if rng.random() < 0.8 else max(0, depth - 2), npool, budget, vol_p, vars_)
                 for _ in range(k)]
-    return ['l', count(), vol(), children]
+    c, v = count_vol()
+    return ['l', c, v, children]
 
 
 def tree_play_len(t):
@@ -307,18 +324,29 @@ def build_pt(q, t, pool, rate, counter, loopvar=None):
     return P.ForLoopPT(body, var, t[1])
 
 
-def build_loop(q, t, wfs, vols):
+def build_loop(q, t, wfs, vols, vars_=None, scopes=None):
+    if scopes is None:
+        scopes = {}
+        for name, sc, value in (vars_ or []):
+            scopes.setdefault(sc, {})[name] = value
+        scopes = {sc: q.DictScope(q.FrozenDict(vals), volatile=set(vals)) for sc, vals in scopes.items()}
+
     def rep(count, vol):
-        if not vol:
+        if vol is False or vol is None:
             return count
-        name = 'v%d' % len(vols)
-        scope = q.DictScope(q.FrozenDict({name: count}), volatile={name})
+        if vol is True:
+            name = 'v%d' % len(vols)
+            scope = q.DictScope(q.FrozenDict({name: count}), volatile={name})
+        else:
+            name, sc, _value = vars_[vol]
+            scope = scopes[sc]
         vc = q.VolatileRepetitionCount(q.ExpressionScalar(name), scope)
         vols.append(vc)
         return vc
     if t[0] == 'w':
         return q.Loop(waveform=wfs[t[2]], repetition_count=rep(t[1], t[3]))
-    return q.Loop(children=[build_loop(q, c, wfs, vols) for c in t[3]], repetition_count=rep(t[1], t[2]))
+    return q.Loop(children=[build_loop(q, c, wfs, vols, vars_, scopes) for c in t[3]],
+                  repetition_count=rep(t[1], t[2]))
 
 
 def build_program(q, case):
@@ -331,7 +359,7 @@ def build_program(q, case):
         return prog, {}
     wfs = [build_wf(q, s, rate) for s in case['pool']]
     specs = {id(w): (json.dumps([s, rate], sort_keys=True), w) for w, s in zip(wfs, case['pool'])}
-    return build_loop(q, case['tree'], wfs, []), specs
+    return build_loop(q, case['tree'], wfs, [], case.get('vars')), specs
 
 
 # ---------------------------------------------------------------------------------------------
@@ -479,35 +507,47 @@ def vol_ids(table):
 
 def staged_program(q, prog, mode_req):
     """what `TaborProgram.__init__` hands to parse/prepare, produced with the real `encapsulate` /
-    `flatten_and_balance`; returned as s-expression data for the model (or 'none')"""
+    `flatten_and_balance`; returns the staged program, the mode and the two volatility labellings"""
     st = prog.copy_tree_structure()
-    vols = {}
+    props = {}
+    scopes = {}
+
+    def prop_id(loop):
+        v = loop.volatile_repetition
+        key = (str(v.expression), tuple(sorted((k, str(e)) for k, e in v.dependencies.items())))
+        return props.setdefault(key, len(props))
 
     def vol(loop):
-        v = loop.volatile_repetition
-        if not v:
-            return '-'
-        key = (str(v.expression), tuple(sorted((k, str(e)) for k, e in v.dependencies.items())))
-        return vols.setdefault(key, len(vols))
+        """table level: id of the volatile property or '-'"""
+        return prop_id(loop) if loop.volatile_repetition else '-'
 
-    if st.repetition_count > 1 or st.depth() == 0:
+    def evol(loop):
+        """entry level: (volatile property, scope identity) -- what parse_aseq_program keys tables by"""
+        if not loop.volatile_repetition:
+            return '-'
+        scope = loop.repetition_definition._scope
+        return [prop_id(loop), scopes.setdefault(id(scope), (len(scopes), scope))[0]]
+
+    root_vol = bool(st.volatile_repetition)
+    if st.repetition_count > 1 or st.volatile_repetition or st.depth() == 0:
         st.encapsulate()
     mode = mode_req
     if mode == 'auto':
         mode = 'advanced' if st.depth() > 1 else 'single'
-    return st, mode, vol
+    return st, mode, (vol, evol), root_vol
 
 
-def staged_sx(q, st, mode, vol, eq_id):
+def staged_sx(q, st, mode, vols, eq_id):
+    vol, evol = vols
     if mode == 'single':
         if st.depth() != 1:
             return 'none'
-        return ['flat1', st.repetition_count] + [['e', c.repetition_count, eq_id(c.waveform), vol(c)] for c in st]
+        return ['flat1', st.repetition_count] + [['e', c.repetition_count, eq_id(c.waveform), evol(c)] for c in st]
     if st.depth() <= 1 or st.repetition_count != 1:
         return 'none'
     st.flatten_and_balance(2)
     return ['flat2'] + [['st', t.repetition_count, vol(t)] +
-                        [['e', c.repetition_count, eq_id(c.waveform), vol(c)] for c in t] for t in st]
+                        [['e', c.repetition_count, eq_id(c.waveform), evol(c)] for c in t] for t in st]
 
 
 def classify_impl_error(exc):
@@ -618,7 +658,7 @@ class Batch:
                 ctx.count(self.label + ':source-sampling-failed:' + src.sample_error)
                 continue
             status, impl = run_impl(q, prog, case)
-            st, mode, vol = staged_program(q, prog, cfg['mode'])
+            st, mode, vol, root_vol = staged_program(q, prog, cfg['mode'])
             try:
                 staged = staged_sx(q, st, mode, vol, tsrc._eq_id)
             except Exception as exc:  # noqa
@@ -629,7 +669,7 @@ class Batch:
                     raise core.MachineryError('flatten_and_balance failed in the harness but TaborProgram succeeded')
                 continue
             lim = ['limits', cfg['limits'][0], cfg['limits'][1]]
-            mline = ser(['c16', 'model', cfg['mode'], lim, ['src', tsrc.tree_eq], staged])
+            mline = ser(['c16', 'model', cfg['mode'], lim, ['src', tsrc.tree_eq], ['rootvol', root_vol], staged])
             entry = {'case': case, 'src': tsrc, 'status': status, 'impl': impl, 'model_at': len(lines),
                      'judge_at': None, 'range_at': None, 'mline': mline}
             lines.append(mline)
@@ -750,7 +790,11 @@ def random_case(rng, family):
     else:
         depth = rng.choice([0, 1, 1, 2, 2, 2, 3, 3, 4])
         for _ in range(20):
-            tree = gen_tree(rng, depth, len(pool), 0, vol_p=0.15 if family == 'volatile' else 0.0)
+            if family == 'volatile':
+                case['vars'] = gen_vars(rng)
+                tree = gen_tree(rng, depth, len(pool), 0, vol_p=0.2, vars_=case['vars'], root=True)
+            else:
+                tree = gen_tree(rng, depth, len(pool), 0)
             if tree_play_len(tree) <= 400:
                 break
         else:
@@ -822,6 +866,29 @@ def exhaustive_cases(max_tables, limits, counts):
                                'trafos': ['id', 'id'], 'limits': list(lim), 'mode': 'auto'}}
 
 
+def volscope_cases():
+    """tables with equal entries whose volatile counts share / do not share property and scope, volatile table
+    counts and a volatile root (count 1 and > 1): exercises the table key of parse_aseq_program and the head of
+    TaborProgram.__init__"""
+    vars_ = [['n', 0, 2], ['n', 1, 2], ['m', 0, 2], ['n', 2, 1]]
+    cfg = {'channels': ['A', 'B'], 'markers': ['M', 'N'], 'amps': [0.5, 0.5], 'offs': [0.0, 0.0],
+           'trafos': ['id', 'id'], 'limits': [1, 16384], 'mode': 'auto'}
+    for j1 in range(3):
+        for j2 in range(3):
+            for root in (False, 3, 0):
+                for tab in (False, 0, 1):
+                    tree = ['l', vars_[root][2] if root is not False else 1, root,
+                            [['l', 2, tab, [['w', 2, 0, j1], ['w', 1, 1, False]]],
+                             ['l', 2, tab, [['w', 2, 0, j2], ['w', 1, 1, False]]]]]
+                    for lim in ([1, 16384], [3, 8]):
+                        yield {'rate': [1, 1], 'pool': SMALL_WF, 'tree': tree, 'pt': None, 'family': 'volscope',
+                               'vars': vars_, 'cfg': dict(cfg, limits=lim)}
+    for root in (3, 0):
+        # a flat program with a volatile root count: encapsulated, hence advanced mode
+        yield {'rate': [1, 1], 'pool': SMALL_WF, 'tree': ['l', vars_[root][2], root, [['w', 2, 0, False], ['w', 1, 1, 1]]],
+               'pt': None, 'family': 'volscope', 'vars': vars_, 'cfg': dict(cfg)}
+
+
 def run(ctx: core.Ctx):
     ctx.rule = ('real Loop programs (direct trees depth 0-4 and pulse-template programs) over pools of 1-5 '
                 'Constant/Table/Function multi-channel waveforms (siblings sharing some channel data, equal '
@@ -857,6 +924,7 @@ def run(ctx: core.Ctx):
         ctx.exhaustive_spaces.append('all depth-2 programs with <= 2 tables (count 1..4) x 8 limit pairs and <= 3 '
                                      'tables (count 1..3) x 2 limit pairs over 13 entry lists: %d cases' % len(space))
     run_cases(ctx, 'exh', space, 3000 if ctx.quick else 1500)
+    run_cases(ctx, 'volscope', list(volscope_cases()), 400)
     # ---- random structured cases
     for family, nq, nt in (('tree', 300, 20000), ('pt', 80, 5000), ('volatile', 60, 4000), ('malformed', 60, 3000),
                            ('compat', 50, 3000)):
